@@ -190,6 +190,7 @@ class FakeNet:
         self.on_write = None
         self.on_drain = None
         self.on_client_close = None
+        self.reader_factory = None   # (loop, connection index) -> reader object
         self._saved = None
         self.frozen = False         # set by harnesses after shutdown: any activity is recorded as late
         self.late = []
@@ -230,7 +231,10 @@ class FakeNet:
         lat = act[1] if len(act) > 1 else 0
         if not _is_zero(lat):
             await asyncio.sleep(lat)
-        reader = StubReader(self.loop) if self.stub_reader else asyncio.StreamReader(loop=self.loop)
+        if self.reader_factory is not None:
+            reader = self.reader_factory(self.loop, len(self.conns))
+        else:
+            reader = StubReader(self.loop) if self.stub_reader else asyncio.StreamReader(loop=self.loop)
         conn = Conn(self, len(self.conns), reader)
         self.conns.append(conn)
         self.open_count += 1
@@ -266,3 +270,67 @@ def _is_zero(x):
     if isinstance(x, (int, float)):
         return x == 0
     return False
+
+
+class SegmentedReader:
+    """readexactly() over a concrete byte stream that arrives in segments whose cut offsets are
+    symbolic integers: `available` is the offset delivered so far. One path = one class of cut
+    positions relative to the read boundaries (every split point is covered without listing them)."""
+
+    def __init__(self, loop, stream):
+        self._loop = loop
+        self._stream = bytes(stream)
+        self._pos = 0
+        self.available = 0        # int or SymInt
+        self._eof = False
+        self._waiter = None
+        self._exc = None
+
+    def deliver_up_to(self, offset):
+        self.available = offset
+        self._wake()
+
+    def feed_eof(self):
+        self._eof = True
+        self._wake()
+
+    def feed_data(self, data):
+        raise AssertionError("SegmentedReader is fed by deliver_up_to()")
+
+    def set_exception(self, exc):
+        self._exc = exc
+        self._wake()
+
+    def _wake(self):
+        w, self._waiter = self._waiter, None
+        if w is not None and not w.cancelled():
+            w.set_result(None)
+
+    def buffered(self):
+        return None
+
+    async def readexactly(self, n):
+        if n < 0:
+            raise ValueError("readexactly size can not be less than zero")
+        if self._exc is not None:
+            raise self._exc
+        if n == 0:
+            return b""
+        if isinstance(n, SymInt):
+            n = n.__index__()
+        while not (self._pos + n <= self.available):      # forks when `available` is symbolic
+            if self._eof:
+                avail = self.available.__index__() if isinstance(self.available, SymInt) else self.available
+                partial = self._stream[self._pos:avail]
+                self._pos = avail
+                raise asyncio.IncompleteReadError(partial, n)
+            self._waiter = self._loop.create_future()
+            try:
+                await self._waiter
+            finally:
+                self._waiter = None
+            if self._exc is not None:
+                raise self._exc
+        out = self._stream[self._pos:self._pos + n]
+        self._pos += n
+        return out
